@@ -65,6 +65,15 @@ def exhaustive(tier):
     elems = [{"t": "int"}, {"t": "float"}, {"t": "bool"}, {"t": "str"}, {"t": "bytes"}, {"t": "none"},
              {"t": "int", "value": 1}, {"t": "float", "value": 1.0}, {"t": "int", "min": 0, "max": 1, "order": ["min", "max"]},
              {"t": "any", "alts": [{"t": "int"}, {"t": "str"}]}]
+    import datetime as _dt
+    bare = elems + [{"t": "int", "value": 0}, {"t": "int", "value": 2 ** 70}, {"t": "float", "value": 0.0}, {"t": "float", "value": 3.0},
+                    {"t": "bool", "value": True}, {"t": "bool", "value": False}, {"t": "str", "value": ""}, {"t": "bytes", "value": b""},
+                    {"t": "bytes", "value": b"a"}, {"t": "int", "value": 3, "min": 0, "order": ["min"]},
+                    {"t": "date", "value": _dt.date(2020, 1, 2)}, {"t": "datetime", "value": _dt.datetime(2020, 1, 2)}]
+    from ..codec import Zoo as _Zoo
+    for e in bare:
+        for a in twins + [b"a", _Zoo("bytearray"), _dt.date(2020, 1, 2), _dt.datetime(2020, 1, 2), _dt.datetime(2020, 1, 2, 3)]:
+            yield {"spec": e, "value": a, "src": "conforming", "applied": None}
     for e in elems:
         typed = {"t": "list", "form": "typed", "elem": e}
         for a in twins:
